@@ -317,6 +317,14 @@ func (r *Receiver) Direct(ctx context.Context, nextCid cid.Cid, peerInfo peer.Ad
 	// republished", so other receivers would take this host for the
 	// publisher.
 	if err := peerInfo.ID.Validate(); err != nil {
+		// A closed receiver says that it is closed, whatever else is wrong
+		// with the announcement.
+		r.announceMutex.Lock()
+		closed := r.closed
+		r.announceMutex.Unlock()
+		if closed {
+			return ErrClosed
+		}
 		return fmt.Errorf("announcement without publisher ID: %w", err)
 	}
 	amsg := Announce{
